@@ -77,6 +77,9 @@ def make_scratch(tag):
     p = os.path.join(crate, "Cargo.toml")
     s = open(p).read()
     s2 = re.sub(r'\[\[test\]\]\nname\s*=\s*"signals".*?harness\s*=\s*false\n', "", s, flags=re.S)
+    # `log` -> no-op stand-in (kani/logstub): identical to the verified configuration (no logger, level Off)
+    shutil.copytree(os.path.join(KANI_DIR, "logstub"), os.path.join(d, "logstub"))
+    s2 += '\n[patch.crates-io]\nlog = { path = "../logstub" }\n'
     open(p, "w").write(s2)
     os.makedirs(os.path.join(crate, ".cargo"))
     open(os.path.join(crate, ".cargo", "config.toml"), "w").write("[net]\noffline = true\n")
@@ -380,7 +383,7 @@ def native_replay(crate, harness_file_rel, test_text, test_name):
     p = os.path.join(crate, "verif_kani", harness_file_rel)
     with open(p, "a") as f:
         f.write("\n" + test_text + "\n")
-    cmd = ["cargo", "kani", "playback", "-Z", "concrete-playback", "--", test_name, "--nocapture"]
+    cmd = ["cargo", "kani", "playback", "-Z", "concrete-playback", "-Z", "mem-predicates", "--lib", "--", test_name, "--nocapture"]
     try:
         r = subprocess.run(cmd, cwd=crate, env=ENV, stdout=subprocess.PIPE, stderr=subprocess.STDOUT, text=True, timeout=1200)
     except subprocess.TimeoutExpired:
